@@ -147,6 +147,10 @@ def jobs(tier, seed=0):
     res.append(dict(cc="MNG", preset="nw_long_delayed_shutoff", options=dict(copy.deepcopy(P["net_nuclear_winter"]), shutoff="long_delayed_shutoff")))
     # a country without pasture under a delayed shut-off (after it the herds get neither feed nor grass)
     res.append(dict(cc="BGD", preset="nw_shutoff_long_delayed_shutoff", options=copy.deepcopy(V["nw_shutoff_long_delayed_shutoff"])))
+    # seaweed as the only resilient food, demand that never stops, a country well above the threshold without feed
+    res.append(dict(cc="BRA", preset="nw_seaweed", options=copy.deepcopy(V["nw_seaweed"])))
+    # an explicit threshold under a schedule that has none of its own
+    res.append(dict(cc="ARG", preset="nw_T50", options=copy.deepcopy(V["nw_T50"])))
     # a short horizon that ends while crops are still depressed, with demand alive in the last month
     for cc in ("USA", "DNK"):
         res.append(dict(cc=cc, preset="nw_48m", options=copy.deepcopy(V["nw_48m"])))
